@@ -615,7 +615,7 @@ func Len(a *Term) *Term {
 		case "be64":
 			return IntLit(8)
 		case "zeros":
-			if a.Args[0].Op == "int" && a.Args[0].Num.Sign() >= 0 {
+			if lo, _, ok := termBounds(a.Args[0]); ok && lo.Sign() >= 0 {
 				return a.Args[0]
 			}
 		}
@@ -648,12 +648,36 @@ func CatN(xs ...*Term) *Term {
 	return r
 }
 
+// Take / Drop rewrite over concatenations whose first segment has a literal length and over zero blocks
+// (instances of T0 item 5 and of the take/drop-beyond-first-segment rule, both audited in Lean).
 func Take(a, n *Term) *Term {
 	if n.Op == "int" && n.Num.Sign() <= 0 {
 		return TEps
 	}
 	if n == Len(a) {
 		return a
+	}
+	if n.Op == "int" {
+		if a.Op == "app" && a.Name == "cat" {
+			if la := Len(a.Args[0]); la.Op == "int" {
+				switch c := n.Num.Cmp(la.Num); {
+				case c == 0:
+					return a.Args[0]
+				case c < 0:
+					return Take(a.Args[0], n)
+				default:
+					return Cat(a.Args[0], Take(a.Args[1], IntBig(new(big.Int).Sub(n.Num, la.Num))))
+				}
+			}
+		}
+		if a.Op == "app" && a.Name == "zeros" {
+			if lo, _, ok := termBounds(a.Args[0]); ok && lo.Cmp(n.Num) >= 0 {
+				return Zeros(n)
+			}
+		}
+		if la := Len(a); la.Op == "int" && n.Num.Cmp(la.Num) >= 0 {
+			return a
+		}
 	}
 	return App("take", SBytes, a, n)
 }
@@ -663,6 +687,43 @@ func Drop(a, n *Term) *Term {
 	}
 	if n == Len(a) {
 		return TEps
+	}
+	if n.Op == "int" {
+		if a.Op == "app" && a.Name == "cat" {
+			if la := Len(a.Args[0]); la.Op == "int" {
+				switch c := n.Num.Cmp(la.Num); {
+				case c == 0:
+					return a.Args[1]
+				case c < 0:
+					return Cat(Drop(a.Args[0], n), a.Args[1])
+				default:
+					return Drop(a.Args[1], IntBig(new(big.Int).Sub(n.Num, la.Num)))
+				}
+			}
+		}
+		if a.Op == "app" && a.Name == "zeros" {
+			if lo, _, ok := termBounds(a.Args[0]); ok && lo.Cmp(n.Num) >= 0 {
+				return Zeros(Sub(a.Args[0], n))
+			}
+		}
+		if la := Len(a); la.Op == "int" && n.Num.Cmp(la.Num) >= 0 {
+			return TEps
+		}
+		if a.Op == "app" && a.Name == "drop" && a.Args[1].Op == "int" && a.Args[1].Num.Sign() >= 0 {
+			return Drop(a.Args[0], IntBig(new(big.Int).Add(n.Num, a.Args[1].Num)))
+		}
+	}
+	// n = x + c with x >= 0: peel leading segments of literal length <= c
+	if n.Op == "+" && a.Op == "app" && a.Name == "cat" {
+		last := n.Args[len(n.Args)-1]
+		if last.Op == "int" && last.Num.Sign() > 0 {
+			if la := Len(a.Args[0]); la.Op == "int" && la.Num.Cmp(last.Num) <= 0 {
+				rest := Add(n.Args[:len(n.Args)-1]...)
+				if lo, _, ok := termBounds(rest); ok && lo.Sign() >= 0 {
+					return Drop(a.Args[1], Add(rest, IntBig(new(big.Int).Sub(last.Num, la.Num))))
+				}
+			}
+		}
 	}
 	return App("drop", SBytes, a, n)
 }
